@@ -589,6 +589,10 @@ pub fn gen_case_ext(r: &mut Rng, opts: GenOpts, ext: GenExt) -> CaseSpec {
                     "Inline" => ValSpec::Inline(g.r.boundary() as u8),
                     "Ordering" => ValSpec::Ordering(g.r.boundary() as u8),
                     "FileIndex" => {
+                        if ext.convertible && nfiles == 0 && enc.version >= 5 {
+                            // index 0 names a file in version 5; the converter wants it to exist
+                            continue;
+                        }
                         if nfiles == 0 || g.r.chance(1, 6) {
                             ValSpec::FileIndex(None)
                         } else {
